@@ -44,7 +44,7 @@ ADDED = {
         "C04": "tracked colour via next operation; getters in variables", "C05": "prologue compound variables",
         "C06": "two-type helper scripts (weak: an already failing script fails differently)", "C07": "accounted/stmt (elif-pass)",
         "C08": "two-call compositionality oracle", "C09": "assign of unknown lengths; returned parameter lists", "C10": "corpus history",
-        "C13": "brace / odd ports", "C14": "Button / animated-LCD kinds in the parser link (C14-6 not addressed)",
+        "C13": "brace / odd ports", "C14": "Button / animated-LCD kinds in the parser link; libraries compared as rendered into platformio.ini",
         "C15": "tuple of two reads; two sensors", "C16": "tune-name spellings; buzzer re-binding",
         "C17": "empty texts; labels as long as the row", "C18": "wrapping-clock rate; registry history",
         "C20": "integer-level button signal"},
